@@ -38,8 +38,8 @@ Push(v) == /\ ideal' = Append(ideal, v) /\ cache' = Append(cache, v) /\ bv' = Ap
 \* pest 2.7.14: a pop is remembered only by the innermost snapshot, and only if it eats into that snapshot's remainder
 Pop == /\ ideal # <<>>
        /\ ideal' = Front(ideal) /\ bv' = Front(bv)
-       /\ cache' = Front(cache)
-       /\ IF lengths # <<>> /\ Len(cache) = Last(lengths)[2]
+       /\ cache' = (IF cache = <<>> THEN cache ELSE Front(cache))      \* (once it has diverged from the ideal stack it may be empty)
+       /\ IF cache # <<>> /\ lengths # <<>> /\ Len(cache) = Last(lengths)[2]
           THEN lengths' = [lengths EXCEPT ![Len(lengths)] = <<@[1], @[2] - 1>>] /\ popped' = Append(popped, Last(cache))
           ELSE UNCHANGED <<lengths, popped>>
        /\ UNCHANGED <<snaps, bsaved>>
